@@ -158,6 +158,8 @@ class World:
                                                                   {'in': 'IN', 'out': 'OUT', 'inout': 'INOUT'}[fdir])))
                 self.distinct(fnames)
                 ret = ['void'] if e['ret'] == 'void' else [enum_sym]
+                if ex.get('claim_ret') == 'extern' and e['ret'] != 'void':
+                    ret = [ext_sym]        # a declared type that is not an enum
                 sig = self.new(A, 'Signature', type_name=self.scope_name(ret),
                                formals=self.new(A, 'Formals', elements=self.lst(fs)))
                 evs.append(self.new(A, 'Event', name=en, signature=sig,
@@ -238,7 +240,7 @@ class World:
             self.port_info.append({'name': pn, 'itf': ii, 'dir': pdir, 'injected': injected})
         self.distinct(self.port_names)
         cname = self.ident('encapsulee')
-        self.distinct([cname] + all_decl_names)
+        self.distinct([cname] + all_decl_names + ['void'])      # 'void' is a keyword, never a declared name
         cfqn = comp_ns + [cname]
         ctree = self.tree(comp_ns)
         pobj = self.new(A, 'Ports', elements=self.lst(ports))
